@@ -425,6 +425,29 @@ static void dump(std::ostream& out) {
             }
         }
         if (n) out << "Y n=" << n << " oob=" << oob << " misaligned=" << mis << " overlap=" << ovl << "\n";
+        // Q: the bump allocator of every command buffer as it stands -- blocks (base address mod 4096, capacity, free space) and the
+        // allocations of this lock period in order (size, alignment, block, offset in the block): replayed through the TempStore model
+        for (size_t t = 0; t < em.temporal_storages_.size(); ++t) {
+            auto& st = em.temporal_storages_[ThreadId::make(t)];
+            if (st.chunks_.empty() && st.actions_.empty()) continue;
+            out << "Q " << t << " target=" << st.target_chunk_size_ << " total=" << st.total_size_ << " chunks=";
+            for (size_t c = 0; c < st.chunks_.size(); ++c)
+                out << (c ? ";" : "") << (reinterpret_cast<uintptr_t>(st.chunks_[c].data.get()) % 4096) << ":" << st.chunks_[c].capacity << ":" << st.chunks_[c].free_space;
+            if (st.chunks_.empty()) out << "-";
+            out << " allocs=";
+            bool first = true;
+            for (auto& a : st.actions_) {
+                if (a.action != TemporalStorage::Action::kAssignComponent || a.ptr == nullptr) continue;
+                const auto& info = ComponentFactory::instance().componentInfo(a.component_id);
+                long ci = -1, off = -1;
+                for (size_t c = 0; c < st.chunks_.size(); ++c)
+                    if (a.ptr >= st.chunks_[c].data.get() && a.ptr <= st.chunks_[c].data.get() + st.chunks_[c].capacity) { ci = long(c); off = long(a.ptr - st.chunks_[c].data.get()); }
+                out << (first ? "" : ";") << info.size << ":" << info.align << ":" << ci << ":" << off;
+                first = false;
+            }
+            if (first) out << "-";
+            out << "\n";
+        }
     }
     out << "W " << d.world->version().toInt() << " " << em.world_version_.toInt() << "\n";
     {
